@@ -159,3 +159,13 @@ Theorem C16_seed_bit_determines_partial : forall m, In m (masks 4) ->
   list_eqb_face (fix_trimesh_orientation fs (fun _ => true)) (map flip_face (fix_trimesh_orientation fs (fun _ => false))) = true.
 Proof. exact tet_orientation_bounded. Qed.
 Print Assumptions C16_seed_bit_determines_partial.
+
+(* ---------------------------------------------------------------- tie to the source text *)
+(* the model and the search were written against exactly this text of the mesh functions (hand model: index-level
+   functions; only searched: the floating-point seed test and self-intersection test incl. their normalisations
+   and tolerances; TriangularMesh constructors and check methods).  Gen.GenMesh is regenerated from /repo on
+   every run; any edit of one of these functions breaks this Example. *)
+From MV Require Import Gen.GenMesh Model.MeshPinned.
+Example C16_model_pinned_to_source : mesh_fingerprints = pinned_mesh_fingerprints.
+Proof. vm_compute. reflexivity. Qed.
+Print Assumptions C16_model_pinned_to_source.
